@@ -140,6 +140,10 @@ class Gen:
                 out.append(["callhook", r.below(4), self.id()])
             elif kind == "overflow":
                 out.append(["overflow", self.id()])
+            elif kind == "throwbig":
+                out.append(["throwbig", k, self.id()])
+            elif kind == "showbig":
+                out.append(["showbig", k, self.id()])
             elif kind == "setrange":
                 out.append(["setrange", k])
             elif kind == "cmprange":
@@ -149,7 +153,7 @@ class Gen:
 
 KINDS_W = [("set", 10), ("inc", 10), ("assign", 6), ("chk", 12), ("probe", 10), ("call", 12), ("tryfin", 8), ("trycatch", 6),
            ("fiber", 6), ("fiber2", 4), ("method", 5), ("classcrash", 3), ("deffn", 5), ("callfn", 7), ("defclass", 4),
-           ("useclass", 5), ("deffiber", 4), ("resume", 7), ("import", 6), ("modcall", 6), ("throw", 5), ("poke", 3), ("corelib", 6), ("shadow", 4), ("useshadow", 6), ("capcrash", 5), ("callcap", 7), ("callhook", 7), ("setrange", 3), ("cmprange", 5), ("overflow", 3)]
+           ("useclass", 5), ("deffiber", 4), ("resume", 7), ("import", 6), ("modcall", 6), ("throw", 5), ("poke", 3), ("corelib", 6), ("shadow", 4), ("useshadow", 6), ("capcrash", 5), ("callcap", 7), ("callhook", 7), ("setrange", 3), ("cmprange", 5), ("overflow", 3), ("throwbig", 3), ("showbig", 5)]
 
 
 def gen_session(seed):
@@ -280,6 +284,11 @@ def render_snip(stmts, uid, stale=()):
             # a callback a module body handed to the registry module - possibly a module whose body failed afterwards
             out.append('import "smreg"; if smreg.hooks.len() > %d { print(("ev", %d, smreg.hooks[%d]())); } else { print(("ev", %d, "nohook")); }' % (
                 st[1], st[2], st[1], st[2]))
+        elif k == "throwbig":
+            # a long container kept in a global is thrown and nobody catches it (the run's final report prints it)
+            out.append("var big%d = [%s]; print((\"ev\", %d, big%d.len())); throw big%d;" % (st[1], ", ".join(str(1000 + j + st[1]) for j in range(90)), st[2], st[1], st[1]))
+        elif k == "showbig":
+            out.append('print(("ev", %d, "${big%d}".len(), "${(1, big%d)}".len(), big%d.len(), {(1, 2): big%d}.len()));' % (st[2], st[1], st[1], st[1], st[1]))
         elif k == "overflow":
             # recursion to the frame limit; the handler annotates the error object it caught (its own business: the next such
             # error must be a fresh one)
@@ -344,7 +353,7 @@ def model(ir, faults):
 
     def fresh():
         st.clear()
-        st.update(G={}, funcs={}, classes={}, fibers={}, names=set(), mods={}, shadows={}, caps={}, oneshot=set(), hooks=[], ranges=set())
+        st.update(G={}, funcs={}, classes={}, fibers={}, names=set(), mods={}, shadows={}, caps={}, oneshot=set(), hooks=[], ranges=set(), bigs=set())
 
     fresh()
 
@@ -580,6 +589,18 @@ def model(ir, faults):
                         ev.append([num(stt[2]), num(ms["mv"])])
                     else:
                         ev.append([num(stt[2]), s("nohook")])
+                elif k == "throwbig":
+                    st["bigs"].add(stt[1])
+                    ev.append([num(stt[2]), num(90)])
+                    probes.inc("crash_at:uncaught_long_container")
+                    raise Crash("%d, %d, %d" % (1000 + stt[1], 1001 + stt[1], 1002 + stt[1]))
+                elif k == "showbig":
+                    if stt[1] not in st["bigs"]:
+                        probes.inc("crash_at:nameerror_top")
+                        raise Crash("NameError")
+                    probes.inc("container_thrown_uncaught_earlier_printed")
+                    text = "[" + ", ".join(str(1000 + j + stt[1]) for j in range(90)) + "]"
+                    ev.append([num(stt[2]), num(len(text)), num(len(text) + 5), num(90), num(1)])
                 elif k == "overflow":
                     probes.inc("frame_limit_reached_and_caught")
                     ev.append([num(stt[1]), cls("IndexError"), s("Stack overflow.")])
